@@ -237,7 +237,7 @@ def expand_fn(src, qual, opts, sections, tline0, notes):
             raise GenError('%s %s: ret= given but no return type' % (src.rel, qual))
         sig_edit = (pc + 1, bo, '%s(%s: %s)%s' % (m.group(1), opts['ret'], m.group(2).strip(), m.group(3)))
     if 'sigonly' in opts:
-        sections = [x for x in sections if x['kind'] in ('spec', 'subst')]
+        sections = [x for x in sections if x['kind'] in ('spec', 'subst')]  # body-level sections are meaningless without a body
     for s in sections:
         if s['kind'] == 'spec':
             inserts.append((bo, sec_lines(s)))
@@ -265,6 +265,11 @@ def expand_fn(src, qual, opts, sections, tline0, notes):
             if lb is None:
                 raise GenError('%s %s: loop %d body not found' % (src.rel, qual, s['n']))
             inserts.append((lb, sec_lines(s)))
+        elif s['kind'] == 'atend':
+            # just before the closing brace of the function body (only meaningful for functions whose last
+            # statement is not a tail expression)
+            ls = text.rfind('\n', 0, bc) + 1
+            inserts.append((ls, sec_lines(s), 'line'))
         elif s['kind'] in ('before', 'after'):
             # anchor = a line (stripped) of the function text
             offs = []
@@ -477,6 +482,8 @@ def generate(repo, tmpl_path, outdir, probe=None):
                         cur = {'kind': kind, 'anchor': rest.strip(), 'lines': []}
                         if k:
                             cur['k'] = k
+                    elif head == 'atend':
+                        cur = {'kind': 'atend', 'lines': []}
                     elif head == 'subst':
                         m = SUBST_RX.match(body)
                         if not m:
